@@ -213,7 +213,11 @@ def tokens(tree):
 
 
 KINDS = ["unknown-symbol", "undefined-isotope", "undefined-charge", "bracket", "count",
-         "tag-order", "bad-tag", "density-tag"]
+         "tag-order", "bad-tag", "density-tag", "non-ascii-digit"]
+
+# decimal digits that are not [0-9]: int()/float()/\d accept the first four families (category Nd), the grammar does not
+ALT_DIGITS = [0x0660, 0x06F0, 0x0966, 0xFF10, 0x1D7CE, 0x0E50]           # + d gives the digit d in that script
+ALT_OTHER = {"1": "\u00b9", "2": "\u00b2", "3": "\u00b3", "4": "\u2074", "5": "\u2085", "0": "\u2080"}   # category No
 
 BOGUS1 = list("AEGJMQRXZ")          # 'L' is a unit of the mixture grammar
 BOGUS2 = ["Xx", "Jj", "Zz", "Qa", "Ab", "Ez", "Gg", "Mx", "Rr", "Xy"]
@@ -318,6 +322,25 @@ def malform(tree, kind, r):
         new = pick(opts, 1)
         tk[i][0] = new
         return join(), "count %s -> %s" % (c, new)
+
+    if kind == "non-ascii-digit":
+        # one digit of a count, isotope number, charge or density value written in another script
+        cs = [i for i in idx(("atom_count", "lead_count", "grp_count", "dens_count", "iso_num", "ion_body"))
+              if any(ch in "0123456789" for ch in tk[i][0])]
+        if not cs:
+            return None
+        i = pick(cs, 0)
+        c = tk[i][0]
+        pos = [k for k, ch in enumerate(c) if ch in "0123456789"]
+        k = pick(pos, 1)
+        fam = r[2] % (len(ALT_DIGITS) + 1)
+        if fam < len(ALT_DIGITS):
+            new_ch = chr(ALT_DIGITS[fam] + int(c[k]))
+        else:
+            new_ch = ALT_OTHER.get(c[k], chr(0xFF10 + int(c[k])))
+        new = c[:k] + new_ch + c[k + 1:]
+        tk[i][0] = new
+        return join(), "digit %r of %s %r written as U+%04X" % (c[k], tk[i][1], c, ord(new_ch))
 
     if kind == "tag-order":
         cands = [i for i in idx(("sym",)) if tk[i][2][0] in pool.with_both]
